@@ -98,20 +98,28 @@ class CppCompileResult:
 
 def _partial_derivative(model, symbol):
     """
-    Derivative of a model expression, taken as a real function, in closed form.
+    Derivative of a model expression in closed form.
 
     sympy differentiates a Symbol without assumptions as a complex variable
     (d|v|/dv keeps Derivative(re(v), v)) and leaves e.g. d Mod(v, c)/dv
-    unevaluated; CSE and simplify silently turn such a Derivative into 0.
+    unevaluated; CSE and simplify silently turn such a Derivative into 0. Where
+    sympy's own derivative is not in closed form the expression is
+    differentiated again as a real function.
     """
     matrix = Matrix([model])
-    real = {
-        s: Dummy(s.name, real=True) for s in matrix.free_symbols if s.is_real is None
-    }
-    undo = {d: s for s, d in real.items()}
-    result = (
-        matrix.xreplace(real).jacobian([real.get(symbol, symbol)]).xreplace(undo)
-    )
+    result = matrix.jacobian([symbol])
+    if result.has(Derivative):
+        real = {
+            s: Dummy(s.name, real=True)
+            for s in matrix.free_symbols
+            if s.is_real is None
+        }
+        undo = {d: s for s, d in real.items()}
+        result = (
+            matrix.xreplace(real)
+            .jacobian([real.get(symbol, symbol)])
+            .xreplace(undo)
+        )
     if result.has(Derivative):
         raise ModelConstructionError(
             "A partial derivative of the model has no closed form"
